@@ -935,3 +935,19 @@ def nontrivial(meta):
                 if f[0] not in ("audit", "drop") and f[1] in ("first", "alias", "twin", "derived", "it", e[1]):
                     return True
     return False
+
+
+def pairs(meta, window=8):
+    """abstract (state-bearing event -> later observation) pairs of one run: a coarser, additive measure of
+    the distinct interleavings reached than whole-history signatures"""
+    out = set()
+    ev = meta.get("events") or []
+    for i, e in enumerate(ev):
+        tags = tuple(e[2]) if len(e) > 2 else ()
+        if (set(tags) & STATE_BEARING) or e[0] in STATE_METHODS or e[0] in ("add", "restore", "snapshot", "mutate+restore"):
+            for f in ev[i + 1:i + 1 + window]:
+                if f[0] in ("audit", "drop"):
+                    continue
+                out.add((e[0], tuple(t for t in tags if t in STATE_BEARING or t in ("echo", "accepted", "refused")), e[1],
+                         f[0], f[1]))
+    return out
